@@ -67,7 +67,14 @@ def rot3(draw):
 
 
 def _translation(draw, scale):
-    return [draw(_f(-1, 1)) * scale for _ in range(3)]
+    """translation components are exactly zero or at least 1e-6 in size: trimesh documents that matrices within 1e-8
+    of identity (apply_transform) or of the stored edge (SceneGraph.update) are treated as unchanged, and Hypothesis
+    shrinks floats into that window; the window itself is probed on purpose by the near_identity class only"""
+    out = []
+    for _ in range(3):
+        t = draw(_f(-1, 1)) * scale
+        out.append(t if abs(t) >= 1e-6 else 0.0)
+    return out
 
 
 def _hom(L, t):
